@@ -36,9 +36,10 @@ import (
 // ECDSA/RSA leaves: fixed credentials of zz_verif_c11_creds_test.go, issued by a private CA with
 // ecdsa-with-SHA256 like the lab CA's leaves.
 type c11Creds struct {
-	Pool   *x509.CertPool // lab CA + the CA of this file
+	Pool   *x509.CertPool // lab CA + the CAs of this harness
 	Server [4]tls.Certificate
 	Client [4]tls.Certificate
+	Alt    [4]tls.Certificate // second server certificate, for the name "alt.verif" (zz_verif_c11_creds_alt_test.go)
 }
 
 var (
@@ -58,6 +59,10 @@ func c11GetCreds() *c11Creds {
 		cr.Server[3] = vKeyPair(c11PemServerRSACert, c11PemServerRSAKey)
 		cr.Client[2] = vKeyPair(c11PemClientECDSACert, c11PemClientECDSAKey)
 		cr.Client[3] = vKeyPair(c11PemClientRSACert, c11PemClientRSAKey)
+		pool.AddCert(vPemCert(c11PemAltCA))
+		cr.Alt[1] = vKeyPair(c11PemAltEd25519Cert, c11PemAltEd25519Key)
+		cr.Alt[2] = vKeyPair(c11PemAltECDSACert, c11PemAltECDSAKey)
+		cr.Alt[3] = vKeyPair(c11PemAltRSACert, c11PemAltRSAKey)
 		c11CredsVal = cr
 	})
 
@@ -88,6 +93,8 @@ type c11Cfg struct {
 	SkipHV     bool   `json:"skip_hv"`
 	Store      bool   `json:"store"`
 	MTU        int    `json:"mtu"`
+	Key2       int    `json:"key2"` // server: key type of a second certificate, for the name "alt.verif" (0 none)
+	SNI        int    `json:"sni"`  // client: 0 = connects to "server.verif", 1 = to "alt.verif"
 }
 
 func c11Version(v int) protocol.Version {
@@ -141,9 +148,15 @@ func (d c11Cfg) build(isClient bool, store SessionStore) *dtlsConfig {
 			c.Certificates = []tls.Certificate{cr.Server[d.Key]}
 		}
 	}
+	if !isClient && d.Key2 > 0 {
+		c.Certificates = append(c.Certificates, cr.Alt[d.Key2])
+	}
 	if isClient {
 		c.RootCAs = cr.Pool
 		c.ServerName = "server.verif"
+		if d.SNI == 1 {
+			c.ServerName = "alt.verif"
+		}
 		c.InsecureSkipVerify = d.SkipVerify
 	} else {
 		c.ClientAuth = ClientAuthType(d.ClientAuth)
@@ -278,6 +291,30 @@ type c11Side struct {
 	Reads    []string `json:"reads"`
 	Sent     string   `json:"sent_chain"` // hash of the chain this side is configured to present ("" if none)
 	SentN    int      `json:"sent_n"`
+	PeerKey  int      `json:"peer_key"` // key type of the leaf of PeerCertificates: 1 Ed25519, 2 ECDSA, 3 RSA (0 none)
+	PeerName string   `json:"peer_name"`
+	MSHash   string   `json:"ms_hash"` // DTLS 1.2: hash of the master secret in force (in-package)
+}
+
+// c11Steer describes what an on-path party or a rogue server does to one association (all zero = nothing).
+type c11Steer struct {
+	CH1Groups    []int `json:"ch1_groups"`     // supported_groups of the FIRST (cookie-less) ClientHello replaced
+	CH1ALPN      []int `json:"ch1_alpn"`       // its ALPN offer replaced
+	CH1StripEMS  bool  `json:"ch1_strip_ems"`  // its extended_master_secret extension removed
+	CH1StripSNI  bool  `json:"ch1_strip_sni"`  // its server_name extension removed
+	CH1StripVers bool  `json:"ch1_strip_vers"` // its supported_versions removed and the datagram forwarded twice
+	SHALPN       int   `json:"sh_alpn"`        // rogue server: the ServerHello names protocol "p<k>" (0 = untouched)
+	Applied      int   `json:"applied"`        // how many datagrams were rewritten
+}
+
+// c11Seed: the earlier association that left the sessions in the stores, when it used other option sets.
+type c11Seed struct {
+	Used   bool   `json:"used"`
+	C      c11Cfg `json:"c"`
+	S      c11Cfg `json:"s"`
+	OK     bool   `json:"ok"`
+	EMS    bool   `json:"ems"`     // extended master secret in force in that association (both sides)
+	MSHash string `json:"ms_hash"` // hash of its master secret (server side)
 }
 
 type c11Alert struct {
@@ -313,6 +350,15 @@ type c11Case struct {
 	DataOK  bool       `json:"data_ok"`
 	NDgram  int        `json:"ndgram"`
 	Storm   bool       `json:"storm"` // more than 3000 datagrams: the run was cut off
+	Steer   c11Steer   `json:"steer"`
+	Seed    c11Seed    `json:"seed"`
+}
+
+// c11Opt: what a run does besides pairing the two option sets.
+type c11Opt struct {
+	Steer c11Steer
+	SeedC *c11Cfg // option sets of the seeding association (nil = the same as the main one)
+	SeedS *c11Cfg
 }
 
 func c11Ver(v protocol.Version) int {
@@ -599,8 +645,28 @@ func c11Observe(p *vPeer, side *c11Side) {
 	side.LCID = hex.EncodeToString(common.LocalConnectionID())
 	side.RCID = hex.EncodeToString(common.RemoteConnectionID)
 	side.RRC = common.RRCNegotiated
+	if side.HasState && len(st.PeerCertificates) > 0 {
+		if leaf, err := x509.ParseCertificate(st.PeerCertificates[0]); err == nil {
+			switch leaf.PublicKeyAlgorithm {
+			case x509.Ed25519:
+				side.PeerKey = 1
+			case x509.ECDSA:
+				side.PeerKey = 2
+			case x509.RSA:
+				side.PeerKey = 3
+			default:
+			}
+			if len(leaf.DNSNames) > 0 {
+				side.PeerName = leaf.DNSNames[0]
+			}
+		}
+	}
 	switch s := p.Conn.state.(type) {
 	case *dtlsstate.State12:
+		if len(s.MasterSecret) > 0 {
+			h := sha256.Sum256(s.MasterSecret)
+			side.MSHash = hex.EncodeToString(h[:8])
+		}
 		side.EMS = s.ExtendedMasterSecret
 		if common.IsClient {
 			if s.LocalKeypair != nil {
@@ -695,6 +761,15 @@ func c11Start(lab *vLab) {
 // c11Pump delivers datagrams according to mask (action per emission index) until both handshakes
 // have returned or `limit` of virtual time has passed with nothing left to do.
 func c11Pump(lab *vLab, mask []string, limit time.Duration, onDgram func(vDatagram), stop func() bool) int {
+	return c11PumpRewrite(lab, mask, limit, onDgram, stop, nil)
+}
+
+// c11PumpRewrite: `rewrite` (on-path party) may replace an emitted datagram by any number of datagrams; nil or
+// a nil result leaves it alone. The wire observer sees what is delivered.
+func c11PumpRewrite(
+	lab *vLab, mask []string, limit time.Duration, onDgram func(vDatagram), stop func() bool,
+	rewrite func(vDatagram) [][]byte,
+) int {
 	type held struct {
 		d     vDatagram
 		after int
@@ -713,6 +788,21 @@ func c11Pump(lab *vLab, mask []string, limit time.Duration, onDgram func(vDatagr
 		progressed := false
 		for _, d := range lab.Net.since(next) {
 			next = d.Idx + 1
+			if rewrite != nil {
+				if repl := rewrite(d); repl != nil {
+					for _, b := range repl {
+						d2 := d
+						d2.Data = b
+						if onDgram != nil {
+							onDgram(d2)
+						}
+						deliver(d2)
+					}
+					progressed = true
+
+					continue
+				}
+			}
 			if onDgram != nil {
 				onDgram(d)
 			}
@@ -789,7 +879,13 @@ func c11SentChain(d c11Cfg, isClient bool, side *c11Side) {
 // runC11 runs one association (optionally preceded by a seeding handshake for resumption).
 func runC11(t *testing.T, id int, gen string, c, s c11Cfg, resume bool, mask []string) c11Case {
 	t.Helper()
-	res := c11Case{Kind: "c11", ID: id, Gen: gen, C: c, S: s, Resume: resume, Mask: mask}
+
+	return runC11Opt(t, id, gen, c, s, resume, mask, c11Opt{})
+}
+
+func runC11Opt(t *testing.T, id int, gen string, c, s c11Cfg, resume bool, mask []string, opt c11Opt) c11Case {
+	t.Helper()
+	res := c11Case{Kind: "c11", ID: id, Gen: gen, C: c, S: s, Resume: resume, Mask: mask, Steer: opt.Steer}
 	res.Client.Alert, res.Server.Alert = -1, -1
 	c11SentChain(c, true, &res.Client)
 	c11SentChain(s, false, &res.Server)
@@ -802,15 +898,34 @@ func runC11(t *testing.T, id int, gen string, c, s c11Cfg, resume bool, mask []s
 	}
 	if resume {
 		tmp := c11Case{}
-		lab0 := c11NewLab(c.build(true, cs), s.build(false, ss), &tmp)
+		c0, s0 := c, s
+		if opt.SeedC != nil && opt.SeedS != nil {
+			c0, s0 = *opt.SeedC, *opt.SeedS
+			res.Seed = c11Seed{Used: true, C: c0, S: s0}
+			if c0.Store && cs == nil {
+				cs = newC11Store()
+			}
+			if s0.Store && ss == nil {
+				ss = newC11Store()
+			}
+		}
+		lab0 := c11NewLab(c0.build(true, cs), s0.build(false, ss), &tmp)
 		if lab0 != nil {
 			c11Start(lab0)
 			c11Pump(lab0, nil, 150*time.Second, nil, lab0.bothDone)
 			res.Seeded = lab0.established() && (cs == nil || cs.size() > 0) && (ss == nil || ss.size() > 0)
+			if res.Seed.Used {
+				var a, b c11Side
+				c11Observe(lab0.Client, &a)
+				c11Observe(lab0.Server, &b)
+				res.Seed.OK, res.Seed.EMS, res.Seed.MSHash = lab0.established(), a.EMS && b.EMS, b.MSHash
+			}
 			lab0.close()
 		}
 	}
-	lab := c11NewLab(c.build(true, cs), s.build(false, ss), &res)
+	ccfg, scfg := c.build(true, cs), s.build(false, ss)
+	rewrite := c11SteerApply(&res, ccfg, scfg)
+	lab := c11NewLab(ccfg, scfg, &res)
 	if lab == nil {
 		res.Client.Class, res.Server.Class = "notbuilt", "notbuilt"
 
@@ -823,7 +938,7 @@ func runC11(t *testing.T, id int, gen string, c, s c11Cfg, resume bool, mask []s
 	if len(mask) > 0 {
 		limit = 500 * time.Second
 	}
-	next := c11Pump(lab, mask, limit, wire.feed, lab.bothDone)
+	next := c11PumpRewrite(lab, mask, limit, wire.feed, lab.bothDone, rewrite)
 	res.TDone = lab.Net.now().Milliseconds()
 	res.NDgram = next
 	res.Storm = next > 3000
